@@ -284,3 +284,15 @@ def _mk_reconstruct(name, inner):
 for _n, _i in (('reconstruct_mdib', '_reconstruct_mdib'), ('reconstruct_mdib_with_context_states', '_reconstruct_mdib'),
                ('reconstruct_md_description', '_reconstruct_md_description')):
     register(_mk_reconstruct(_n, _i))
+
+
+# Get handlers serialise the collected state containers after leaving the critical section; that is a snapshot only
+# because a commit never writes to a stored state object (it queues copies and replaces the table entry).  The provider
+# functions that prepare those copies are under contract in C02; the ones relevant here are re-checked under C07.
+from contracts import C02 as _c02   # noqa: E402
+
+
+@register
+class CommitQueuesCopiesOfStates(_c02.UpdateCorrespondingStateNotInTx):
+    id = 'C07.descriptor_commit_never_writes_the_stored_state'
+    prop = 'C07'
